@@ -160,6 +160,15 @@ def check_sig(spec, ret, future, stats, enum=True, shp=None):
             bound = support.bind_callsig(sig, args, kwargs)
         except TypeError:
             bound = None
+        try:
+            # any sequence of positional arguments will do
+            bound_l = support.bind_callsig(sig, list(args), dict(kwargs))
+        except TypeError:
+            bound_l = None
+        if bound_l != bound:
+            stats.fail('C20/bind_callsig/list-arguments', dict(case, args=list(args), kwargs=kwargs),
+                       'bind_callsig((%s), %r, %r) -> %r with a tuple of arguments but %r with a list' % (text, args, kwargs, bound, bound_l))
+            break
         if got != want:
             stats.fail('C20/f-call', dict(case, args=list(args), kwargs=kwargs), 'f(%s)(*%r, **%r) -> %r, CPython reference binding -> %r' % (desc, args, kwargs, got, want))
             break
@@ -179,9 +188,11 @@ def check_sig(spec, ret, future, stats, enum=True, shp=None):
         named = [p.name for p in spec if p.kind in (PO, POK, KWO)] + ['__make_up_callsigs__extra_%d' % i for i in range(extra)]
         got = {(len(a), frozenset(k)) for a, k in cs}
         miss = None
+        # keyword subsets are drawn from the named parameters, the extra names and the spellings of the star parameters
+        kwpool = named + [p.name for p in spec if p.kind in (VP, VK)]
         for n in range(len(named) + 1):
-            for r in range(len(named) + 1):
-                for K in itertools.combinations(named, r):
+            for r in range(len(kwpool) + 1):
+                for K in itertools.combinations(kwpool, r):
                     if (n, frozenset(K)) not in got:
                         miss = (n, K)
                         break
